@@ -56,6 +56,8 @@ type c16world struct {
 	foreign          *bed.Client // client of colB
 	errPacks         []*model.PushPullPack
 	nm               map[int32]string
+	late             int    // canary patches / late subscribers so far
+	typ              string // type of k0
 }
 
 // mutate applies 1-3 mutations to a request; returns a description.
@@ -323,6 +325,54 @@ func (x *c16world) canaryCheck() *core.Result {
 	}
 	x.w.idle()
 	c.Count("canary_syncs_answered", 1)
+	// the other ways into the key's stored data - a well-formed REST patch of it (the server
+	// rebuilds the datatype from its store first) and a client that subscribes now (served from
+	// snapshot and log) - must be answered too, whatever the hostile requests accepted so far
+	// have left stored: an error is an answer, a panic or silence is not
+	x.late++
+	answered := false
+	pout := bed.Guard(15e9, func(ctx context.Context) error {
+		resp, err := x.w.b.Svc.PatchDocument(ctx, &model.PatchMessage{Collection: "colA", Key: "k0", Json: fmt.Sprintf(`{"canary":%d}`, x.late)})
+		answered = resp != nil
+		return err
+	})
+	if res := x.emptyAnswer("PatchDocument", pout, answered); res != nil {
+		return res
+	}
+	if pout.Panic != "" {
+		return c.Violation("server-panic:canary-patch", "a well-formed patch of the key after the hostile request panicked: %s", pout.Panic)
+	}
+	if pout.TimedOut {
+		if pout.Hang {
+			return c.Violation("no-answer:canary-patch", "a well-formed patch of the key after the hostile request is never answered\n%s", clipDump(pout.Dump))
+		}
+		return c.Inconclusive("canary patch watchdog")
+	}
+	x.w.idle()
+	c.Count("canary_patches_answered", 1)
+	if x.late%3 == 0 {
+		lc := x.w.b.NewClient("colA", fmt.Sprintf("late%d", x.late))
+		ld := lc.Open("k0", x.typ, bed.Subscribe)
+		if ld != nil && lc.Register() == nil {
+			lex := lc.Send(lc.BuildRequest())
+			if lex.Out.Panic != "" {
+				return c.Violation("server-panic:late-subscriber", "a subscription to the key after the hostile request panicked: %s", lex.Out.Panic)
+			}
+			if lex.Out.TimedOut {
+				if lex.Out.Hang {
+					return c.Violation("no-answer:late-subscriber", "a subscription to the key after the hostile request is never answered\n%s", clipDump(lex.Out.Dump))
+				}
+				return c.Inconclusive("late subscriber watchdog")
+			}
+			if lex.Out.Err == nil {
+				if pm := lc.Apply(lex.Resp); pm != "" {
+					c.Count("diagnostic_late_subscriber_client_panic", 1)
+				}
+			}
+			x.w.idle()
+			c.Count("late_subscriptions_answered", 1)
+		}
+	}
 	return nil
 }
 
@@ -362,6 +412,7 @@ func runC16(c *core.Case) *core.Result {
 		w.idle()
 	}
 	_ = fb
+	x.typ = typ
 	x.cz0 = x.canary.Open("k0", typ, bed.Subscribe)
 	if _, sig, msg := w.sync(x.canary); sig != "" {
 		return verdict(c, "setup:", sig, msg)
